@@ -93,6 +93,13 @@ def deductive_decomposer(res, agg, tier):
                 k = U._ext["mode"]
                 for name, (l, r) in svdk_clauses(X.term, U.term, s.term, V.term, k).items():
                     agg.vc(fn, "SVD_k:" + name, prove_eq(pth.ctx, l, r), cfg)
+                from vf.sym.prove import prove_scalar as _ps
+                if _ps(pth.ctx, k.z == p.z)["status"] == "discharged":
+                    agg.vc(fn, "SVD_k: V V^H = I when k = n_features", prove_eq(pth.ctx, tm.mul(V.term, tm.H(V.term)), tm.I(p)), cfg)
+                if _ps(pth.ctx, k.z == n.z)["status"] == "discharged":
+                    agg.vc(fn, "SVD_k: U U^H = I when k = n_samples", prove_eq(pth.ctx, tm.mul(U.term, tm.H(U.term)), tm.I(n)), cfg)
+                if _ps(pth.ctx, z3.Or(k.z == p.z, k.z == n.z))["status"] == "discharged":
+                    agg.vc(fn, "SVD_k: X = U s V^H when all modes are kept", prove_eq(pth.ctx, X.term, tm.mul(tm.mul(U.term, s.term), tm.H(V.term))), cfg)
                 agg.vc(fn, "dims", struct_vc(U.dims == (S, "mode") and s.dims == ("mode",) and V.dims == (F, "mode"),
                                              f"{U.dims} {s.dims} {V.dims}"), cfg)
                 agg.vc(fn, "s-descending-nonneg", struct_vc({"desc", "nonneg"} <= s.tags, str(s.tags)), cfg)
